@@ -159,36 +159,40 @@ pub fn run_property(id: &str, tier: Tier, only_sub: Option<String>) -> i32 {
         reports.push(rep);
     }
 
-    // 3b. libFuzzer campaign statistics and artifacts handed over by ./check (thorough tier of C10/C11/C13/C19)
-    let mut fuzz_json: Value = Value::Null;
+    // 3b. libFuzzer campaign statistics and artifacts handed over by ./check (thorough tier): a colon-separated
+    // list of stats files, one per campaign. Artifacts are replayed strictly through the matching
+    // `.fuzz_bytes` (text targets) or `.fuzz_cases` (structured target prop_case) sub-check.
+    let mut fuzz_list: Vec<Value> = vec![];
     let mut fuzz_execs = 0u64;
-    if let Ok(p) = std::env::var("VERIF_FUZZ_STATS") {
-        if let Ok(txt) = std::fs::read_to_string(&p) {
-            if let Ok(v) = serde_json::from_str::<Value>(&txt) {
-                fuzz_execs = v["executions"].as_u64().unwrap_or(0);
-                let target = v["target"].as_str().unwrap_or("").to_string();
-                let fsub = subs.iter().find(|s| s.name().ends_with(".fuzz_bytes"));
-                if let (Some(dir), Some(fsub)) = (v["artifact_dir"].as_str(), fsub) {
-                    let mut files: Vec<_> = std::fs::read_dir(dir).map(|d| d.filter_map(|e| e.ok()).map(|e| e.path()).collect()).unwrap_or_else(|_| vec![]);
-                    files.sort();
-                    for f in files {
-                        let Ok(bytes) = std::fs::read(&f) else { continue };
-                        let case = json!({"target": target, "hex": crate::props::fuzzsub::to_hex(&bytes)});
-                        match fsub.replay(&case) {
-                            Ok(_) => eprintln!("note: libFuzzer artifact {} does not reproduce through the hv oracle (fuzz-build only, e.g. a timeout or OOM)", f.display()),
-                            Err(m) if m.starts_with("INCONCLUSIVE") => eprintln!("note: artifact {}: {}", f.display(), m),
-                            Err(m) => {
-                                let fl = Failure { subcheck: fsub.name().to_string(), case, debug: format!("libFuzzer artifact {:?}", String::from_utf8_lossy(&bytes)), message: m.clone(), seed, kind: "violation" };
-                                let rp = write_replay(id, &fl);
-                                violations.push((rp, format!("{} (libFuzzer artifact): {}", fsub.name(), m)));
-                            }
+    if let Ok(list) = std::env::var("VERIF_FUZZ_STATS") {
+        for p in list.split(':').filter(|p| !p.is_empty()) {
+            let Ok(txt) = std::fs::read_to_string(p) else { continue };
+            let Ok(v) = serde_json::from_str::<Value>(&txt) else { continue };
+            fuzz_execs += v["executions"].as_u64().unwrap_or(0);
+            let target = v["seeds_and_artifacts_as"].as_str().or(v["target"].as_str()).unwrap_or("").to_string();
+            let suffix = if target.starts_with("prop_case") { ".fuzz_cases" } else { ".fuzz_bytes" };
+            let fsub = subs.iter().find(|s| s.name().ends_with(suffix));
+            if let (Some(dir), Some(fsub)) = (v["artifact_dir"].as_str(), fsub) {
+                let mut files: Vec<_> = std::fs::read_dir(dir).map(|d| d.filter_map(|e| e.ok()).map(|e| e.path()).collect()).unwrap_or_else(|_| vec![]);
+                files.sort();
+                for f in files {
+                    let Ok(bytes) = std::fs::read(&f) else { continue };
+                    let case = json!({"target": target, "hex": crate::props::fuzzsub::to_hex(&bytes)});
+                    match fsub.replay(&case) {
+                        Ok(_) => eprintln!("note: libFuzzer artifact {} does not reproduce through the hv oracle (fuzz-build only, e.g. a timeout or OOM)", f.display()),
+                        Err(m) if m.starts_with("INCONCLUSIVE") => eprintln!("note: artifact {}: {}", f.display(), m),
+                        Err(m) => {
+                            let fl = Failure { subcheck: fsub.name().to_string(), case, debug: format!("libFuzzer artifact {:?}", String::from_utf8_lossy(&bytes)), message: m.clone(), seed, kind: "violation" };
+                            let rp = write_replay(id, &fl);
+                            violations.push((rp, format!("{} (libFuzzer artifact): {}", fsub.name(), m)));
                         }
                     }
                 }
-                fuzz_json = v;
             }
+            fuzz_list.push(v);
         }
     }
+    let fuzz_json: Value = if fuzz_list.is_empty() { Value::Null } else { Value::Array(fuzz_list) };
 
     let mut aborts = 0;
     for r in &reports {
